@@ -2093,3 +2093,20 @@ package crypto
 //@ requires a != nil && sk != nil && 1 <= sk.scalar && sk.scalar < FrR()
 //@ assigns nothing
 //@ ensures [decode-of-encode-is-the-same-key] result1 == nil && typeis(result0, *prKeyBLSBLS12381) && unbox(result0, *prKeyBLSBLS12381).scalar == sk.scalar
+
+// Joint-Feldman constructor (C10): init establishes the joint invariant every other method assumes.
+//@ pred jfStartInstShape(s, j) = s.fvss[j].feldmanVSSstate != nil && s.fvss[j].complaints != nil && s.fvss[j].dkgCommon == s.dkgCommon && obj(s.fvss[j].feldmanVSSstate) != obj(s) && obj(s.fvss[j].feldmanVSSstate) != obj(s.fvss) && obj(s.fvss[j].feldmanVSSstate) != obj(s.dkgCommon)
+//@ pred commonDims(c) = c != nil && 2 <= c.size && c.size <= 254 && 1 <= c.threshold && c.threshold < c.size && c.myIndex < c.size
+//@ func (*JointFeldmanState).init mode int props C10 C09
+//@ requires s != nil && commonDims(s.dkgCommon) && obj(s.dkgCommon) != obj(s) && !s.jointRunning
+//@ assigns s.fvss, s.running
+//@ ensures [joint-invariant-established] (s.processor != nil ==> jfInv(s)) && !s.jointRunning && !s.running && unchanged(s.dkgCommon)
+//@ ensures [instances-are-pristine] forall(j, 0, s.size, !s.fvss[j].sharesTimeout && !s.fvss[j].complaintsTimeout && !s.fvss[j].disqualified)
+//@ loop 1 invariant [range] 0 <= i && i <= s.size && len(s.fvss) == s.size && fresh(s.fvss) && unchanged(s.dkgCommon) && unchanged(s.size) && unchanged(s.threshold) && unchanged(s.myIndex) && unchanged(s.processor) && unchanged(s.jointRunning) && (i > 0 ==> !s.running)
+//@ loop 1 invariant [instances-so-far] forall(j, 0, i, (s.processor != nil ==> jfInst(s, j)) && jfStartInstShape(s, j) && fresh(s.fvss[j].feldmanVSSstate) && fresh(s.fvss[j].complaints) && !s.fvss[j].sharesTimeout && !s.fvss[j].complaintsTimeout && !s.fvss[j].disqualified && !s.fvss[j].vAReceived && !s.fvss[j].xReceived)
+//@ loop 1 invariant [separate-so-far] forall(j, 0, i, forall(k, 0, i, j != k ==> obj(s.fvss[j].feldmanVSSstate) != obj(s.fvss[k].feldmanVSSstate) && s.fvss[j].complaints != s.fvss[k].complaints))
+
+//@ func NewJointFeldman mode int props C10 C09
+//@ assigns nothing
+//@ ensures [reject] (size < 2 || size > 254 || myIndex >= size || myIndex < 0 || threshold >= size || threshold < 1) ==> result0 == nil && iserr(result1, *invalidInputsError)
+//@ ensures [accept] !(size < 2 || size > 254 || myIndex >= size || myIndex < 0 || threshold >= size || threshold < 1 || processor == nil) ==> result1 == nil && typeis(result0, *JointFeldmanState) && fresh(unbox(result0, *JointFeldmanState)) && jfInv(unbox(result0, *JointFeldmanState)) && !unbox(result0, *JointFeldmanState).jointRunning && !unbox(result0, *JointFeldmanState).running
